@@ -9,10 +9,12 @@
  * Lines (text after " | " is the implementation's observation; stripped on input):
  *   C <n> <tag>
  *   K <NAME> <val>                                      const NAME = <val>
+ *   U <name> <val>                                      var <name> = <val>   (top level; captured by rules with u=<name>)
  *   H <name> <os> <groups> <arr> <dict> <mix>           object Host
  *   S <host> <short> <os> <groups> <arr> <dict> <mix>   object Service
  *   O <i> <dsl text>                                    | h=<bits> s=<bits>        (inv child: truth of the atom per H / S line)
- *   R <id> <src> <tgt> <name> <for> <fk> <fv> <bodyhost> [a=<expr>]... [i=<expr>]...
+ *   R <id> <src> <tgt> <name> <for> <fk> <fv> <bodyhost> [a=<expr>]... [i=<expr>]... [u=<name>[,<name>...]]...
+ *                                                       u= renders as `use (n1, n2)` in the apply header
  *   L <concs>                                           | p1=<res> w1=<res> [p16=<res> w16=<res>]
  *   A <H|S> <expr> <fv>                                 | fast=<ares> slow=<ares> dups=<n>
  * The full format (values, prefix expressions, rendering, observations) is described in _work/scratch/c16/PROTOCOL.md.
@@ -357,7 +359,7 @@ struct SvcL { std::string host, name, os, groups, arr, dict, mix; };
 struct RuleL {
 	std::string id, src, tgt, name, forSpec, fk, fv;
 	int bodyhost = 0;
-	std::vector<std::string> assigns, ignores;
+	std::vector<std::string> assigns, ignores, uses;
 };
 struct ALine { char type = 'H'; std::string expr, fv; };
 
@@ -365,6 +367,7 @@ struct Case {
 	std::vector<std::string> lines;  /* normalised, observations stripped */
 	std::vector<char> kinds;         /* first letter of each line */
 	std::vector<std::pair<std::string, std::string>> consts;
+	std::vector<std::pair<std::string, std::string>> uvars;
 	std::vector<HostL> hosts;
 	std::vector<SvcL> svcs;
 	std::vector<std::pair<int, std::string>> olines;
@@ -415,6 +418,10 @@ static void ParseCaseLine(Case& c, const std::string& line)
 		if (w.size() != 3 || !IsIdent(w[1])) throw Bad("bad K line");
 		ValDsl(w[2]);
 		c.consts.emplace_back(w[1], w[2]);
+	} else if (w[0] == "U") {
+		if (w.size() != 3 || !IsIdent(w[1])) throw Bad("bad U line");
+		ValDsl(w[2]);
+		c.uvars.emplace_back(w[1], w[2]);
 	} else if (w[0] == "H") {
 		if (w.size() != 7) throw Bad("bad H line");
 		c.hosts.push_back({ w[1], w[2], w[3], w[4], w[5], w[6] });
@@ -440,6 +447,12 @@ static void ParseCaseLine(Case& c, const std::string& line)
 		for (size_t i = 9; i < w.size(); i++) {
 			if (w[i].compare(0, 2, "a=") == 0) r.assigns.push_back(w[i].substr(2));
 			else if (w[i].compare(0, 2, "i=") == 0) r.ignores.push_back(w[i].substr(2));
+			else if (w[i].compare(0, 2, "u=") == 0) {
+				for (auto& n : Split(w[i].substr(2), ',')) {
+					if (!IsIdent(n)) throw Bad("bad use name '" + n + "'");
+					r.uses.push_back(n);
+				}
+			}
 			else throw Bad("bad rule token '" + w[i] + "'");
 		}
 		c.rules.push_back(r);
@@ -489,6 +502,7 @@ static std::string InventoryText(const Case& c)
 {
 	std::string t;
 	for (auto& k : c.consts) t += "const " + k.first + " = " + ValDsl(k.second) + "\n";
+	for (auto& u : c.uvars) t += "var " + u.first + " = " + ValDsl(u.second) + "\n";
 	for (auto& h : c.hosts)
 		t += "object Host " + Quote(h.name) + " {\n  check_command = \"dummy\"\n" + VarsText(h.os, h.groups, h.arr, h.dict, h.mix) + "}\n";
 	for (auto& s : c.svcs)
@@ -514,7 +528,9 @@ static std::string RulesText(const Case& c, bool wrap)
 			if (r.fk == "-") throw Bad("for without loop variable");
 			t += " for (" + r.fk + (r.fv != "-" ? " => " + r.fv : "") + " in " + term + ")";
 		}
-		t += std::string(" to ") + (r.tgt == "H" ? "Host" : "Service") + " {\n";
+		t += std::string(" to ") + (r.tgt == "H" ? "Host" : "Service");
+		if (!r.uses.empty()) t += " use (" + Join(r.uses, ", ") + ")";
+		t += " {\n";
 		if (r.src == "S") t += "  check_command = \"dummy\"\n";
 		else if (r.src == "N") t += "  command = \"ncmd\"\n  users = [ \"u\" ]\n";
 		else if (r.src == "D") t += "  parent_host_name = \"zp\"\n";
@@ -1100,6 +1116,9 @@ struct Gen {
 	std::vector<std::pair<std::string, std::string>> svcs;   /* host, short name */
 	std::vector<bool> atomSvc;
 	bool avoidZp = false;  /* a Dependency rule that applies to host zp makes zp its own parent: the load is rejected */
+	std::set<std::string> uvars;              /* U variables of the case (ux, us, un, host) */
+	std::vector<std::string> created;         /* short names of services the case's S->H rules can create (cascade cases) */
+	bool useCreated = false;                  /* the rule being generated is a ->S rule of a cascade case */
 
 	explicit Gen(Rng& rng) : r(rng) { }
 
@@ -1125,6 +1144,7 @@ struct Gen {
 	std::pair<std::string, std::string> PickSvc()
 	{
 		static const char *names[] = { "s0", "s1", "s2", "ping", "s9" };
+		if (useCreated && !created.empty() && pct(40)) return { PickHost(), created[r.below(created.size())] };
 		int k = (int)r.below(10);
 		if (k < 7 && !svcs.empty()) return svcs[r.below(svcs.size())];
 		return { PickHost(), names[r.below(k < 9 ? 4 : 5)] };
@@ -1335,16 +1355,59 @@ struct Gen {
 		return t;
 	}
 
-	std::string GenRule(int id, char src, char tgt)
+	/* Replaces one compared literal by $ux; / $us; or one 'name; by $un; (whichever U variables the case has): a captured
+	 * variable is not a literal. Returns the variable referenced ("" if nothing could be replaced). */
+	std::string SubstUse(const P& root)
+	{
+		struct Cand { P node; std::string var; };
+		std::vector<Cand> cands;
+		std::function<void(const P&, const std::string&)> walk = [&](const P& e, const std::string& side) {
+			if (!e) return;
+			if (e->k == '=' || e->k == '~') {
+				/* which name is compared here? */
+				std::string v;
+				Walk(e, [&](const P& x) { if (x->k == 'V' && (x->s == "host" || x->s == "service")) v = x->s; });
+				walk(e->a, v);
+				walk(e->b, v);
+				return;
+			}
+			if (e->k == 'S') {
+				if (e->s == "name") { if (uvars.count("un")) cands.push_back({ e, "un" }); }
+				else if (side == "service") { if (uvars.count("us")) cands.push_back({ e, "us" }); }
+				else if (uvars.count("ux")) cands.push_back({ e, "ux" });
+				return;
+			}
+			walk(e->a, side);
+			walk(e->b, side);
+		};
+		walk(root, "");
+		if (cands.empty()) return "";
+		Cand& c = cands[r.below(cands.size())];
+		c.node->k = 'V';
+		c.node->s = c.var;
+		return c.var;
+	}
+
+	std::string GenRule(int id, char src, char tgt, bool cascadeTarget)
 	{
 		std::string forSpec = "-", fk = "-", fv = "-";
 		bool hasFor = r.coin();
 		bool loopHost = false;
+		useCreated = cascadeTarget;
 		if (hasFor) {
 			bool dictLike;
 			if (pct(3)) {
-				forSpec = (tgt == 'S' && r.coin()) ? "hmix" : "mix";
+				forSpec = (tgt == 'S' && (cascadeTarget || r.coin())) ? "hmix" : "mix";
 				dictLike = r.coin();
+			} else if (cascadeTarget) {
+				/* created services have no vars the model knows about: only host-side and literal for-terms */
+				switch (r.below(4)) {
+				case 0: forSpec = "L:" + (r.below(3) == 0 ? ValTok() + "," + ValTok() : DistinctVals((int)r.below(4))); dictLike = false; break;
+				case 1: forSpec = "M:" + DictVals((int)r.below(4)); dictLike = true; break;
+				case 2: forSpec = "harr"; dictLike = false; break;
+				default: forSpec = "hdict"; dictLike = true; break;
+				}
+				if (pct(5)) dictLike = !dictLike;
 			} else {
 				switch (r.below(6)) {
 				case 0: forSpec = "L:" + (r.below(3) == 0 ? ValTok() + "," + ValTok() : DistinctVals((int)r.below(4))); dictLike = false; break;
@@ -1362,8 +1425,21 @@ struct Gen {
 			else if (dictLike && r.below(1000) < 8) { fv = r.coin() ? "host" : "service"; loopHost = true; }
 			else if (dictLike && pct(2)) fv = fk;
 		}
-		bool noAtoms = loopHost;
+		bool noAtoms = loopHost || cascadeTarget;
 		int bodyhost = loopHost ? 0 : (pct(60) ? 1 : 0);
+
+		/* captured variables: a random non-empty subset of the case's U variables in ~60 % of the rules */
+		std::set<std::string> ruleUses;
+		if (!uvars.empty() && pct(60)) {
+			for (auto& u : uvars) if (r.coin()) ruleUses.insert(u);
+			if (ruleUses.empty()) { auto it = uvars.begin(); std::advance(it, r.below(uvars.size())); ruleUses.insert(*it); }
+		}
+		/* a reference to a U variable: normally captured, in ~10 % of the uses not (undefined variable when evaluated) */
+		auto referenced = [&](const std::string& v) {
+			if (v.empty()) return;
+			if (pct(10)) ruleUses.erase(v); else ruleUses.insert(v);
+		};
+		bool haveRef = uvars.count("ux") || uvars.count("us") || uvars.count("un");
 
 		std::vector<std::string> toks;
 		bool noAssign = hasFor && pct(5);
@@ -1373,7 +1449,13 @@ struct Gen {
 			if (pct(55)) {
 				std::vector<P> list = Disjuncts(tgt);
 				pure = true;
-				if (pct(35)) {
+				if (haveRef && !ruleUses.empty() && pct(50)) {
+					/* near miss: a captured variable instead of a literal */
+					pure = false;
+					P f = Clone(Fold(list));
+					referenced(SubstUse(f));
+					toks.push_back("a=" + Enc(f));
+				} else if (pct(35)) {
 					pure = false;
 					if (list.size() >= 2 && r.below(9) == 0) {
 						/* split over two assign lines: still the same (recognisable) disjunction */
@@ -1386,18 +1468,27 @@ struct Gen {
 				} else
 					toks.push_back("a=" + Enc(Fold(list)));
 			} else {
-				toks.push_back("a=" + Enc(RandEx(3, tgt, noAtoms)));
+				P f = RandEx(3, tgt, noAtoms);
+				if (haveRef && pct(25)) referenced(SubstUse(f));
+				toks.push_back("a=" + Enc(f));
 				if (r.below(10) == 0) toks.push_back("a=" + Enc(RandEx(2, tgt, noAtoms)));
 			}
 		}
 		if (pct(25)) {
 			P ig = r.coin() ? Disjunct(tgt) : RandEx(2, tgt, noAtoms);
+			if (haveRef && pct(30)) referenced(SubstUse(ig));
 			toks.push_back("i=" + Enc(ig));
 			if (r.below(8) == 0) toks.push_back("i=" + Enc(NameCmp("host", PickHost())));
 		}
 		/* keep most Dependency-to-Host rules whose filter is not a plain name list away from zp */
 		if (avoidZp && !pure && pct(70)) toks.push_back("i=" + Enc(NameCmp("host", "zp")));
 		avoidZp = false;
+		useCreated = false;
+		if (!ruleUses.empty()) {
+			std::vector<std::string> names(ruleUses.begin(), ruleUses.end());
+			for (size_t i = names.size(); i > 1; i--) std::swap(names[i - 1], names[r.below(i)]);
+			toks.insert(toks.begin() + r.below(toks.size() + 1), "u=" + Join(names, ","));
+		}
 		std::string line = "R " + std::to_string(id) + " " + std::string(1, src) + " " + std::string(1, tgt) + " r" + std::to_string(id) + "- "
 			+ forSpec + " " + fk + " " + fv + " " + std::to_string(bodyhost);
 		for (auto& t : toks) line += " " + t;
@@ -1469,20 +1560,21 @@ struct Gen {
 
 	void GenCase(int idx, bool both, std::vector<std::string>& out)
 	{
-		hosts.clear(); svcs.clear(); atomSvc.clear();
+		hosts.clear(); svcs.clear(); atomSvc.clear(); uvars.clear(); created.clear();
 		/* rule kinds first: a Dependency rule needs host zp */
 		static const char kinds[7][2] = { { 'S', 'H' }, { 'N', 'H' }, { 'N', 'S' }, { 'D', 'H' }, { 'D', 'S' }, { 'T', 'H' }, { 'T', 'S' } };
 		int nr = 1 + (int)r.below(4);
 		std::vector<int> rk;
 		bool hasDep = false;
-		/* services created by an `apply Service` rule would become targets of the `to Service` rules of the same load
-		 * (cascade): a case has either an S->H rule or ->S rules, never both */
+		/* services created by an `apply Service` rule become targets of the `to Service` rules of the same load (cascade):
+		 * half of the cases allow an S->H rule next to ->S rules, the others have either an S->H rule or ->S rules */
+		bool allowCascade = r.coin();
 		bool hasSH = false, hasToS = false;
 		for (int i = 0; i < nr; i++) {
 			int k;
 			do {
 				k = (int)r.below(7);
-			} while ((k == 0 && hasToS) || (kinds[k][1] == 'S' && hasSH));
+			} while (!allowCascade && ((k == 0 && hasToS) || (kinds[k][1] == 'S' && hasSH)));
 			if (k == 0) hasSH = true;
 			if (kinds[k][1] == 'S') hasToS = true;
 			rk.push_back(k);
@@ -1517,6 +1609,20 @@ struct Gen {
 				sl.push_back("S " + h + " " + snames[s] + " " + VarFields(false));
 			}
 		}
+		/* U lines (top-level variables for use() closures) go between the constants and the inventory */
+		if (pct(20)) {
+			int nu = 1 + (int)r.below(2);
+			std::vector<int> ui = { 0, 1, 2 };
+			for (int i = 2; i > 0; i--) std::swap(ui[i], ui[r.below(i + 1)]);
+			ui.resize(nu);
+			std::sort(ui.begin(), ui.end());
+			for (int u : ui) {
+				if (u == 0) { out.push_back("U ux '" + PickHost()); uvars.insert("ux"); }
+				else if (u == 1) { out.push_back("U us '" + PickSvc().second); uvars.insert("us"); }
+				else { out.push_back("U un 'name"); uvars.insert("un"); }
+			}
+		}
+		if (pct(2)) { out.push_back("U host 'h1"); uvars.insert("host"); }
 		for (auto& l : hl) out.push_back(l);
 		for (auto& l : sl) out.push_back(l);
 		int na = 1 + (int)r.below(4);
@@ -1527,7 +1633,29 @@ struct Gen {
 			out.push_back("O " + std::to_string(i) + " " + kAtoms[ai[i]].text);
 			atomSvc.push_back(kAtoms[ai[i]].svc);
 		}
-		for (int i = 0; i < nr; i++) out.push_back(GenRule(i, kinds[rk[i]][0], kinds[rk[i]][1]));
+		/* the S->H rules first (the ->S rules of a cascade case name services they create), printed in id order */
+		bool cascade = hasSH && hasToS;
+		std::vector<std::string> rl(nr);
+		for (int i = 0; i < nr; i++) {
+			if (rk[i] != 0) continue;
+			rl[i] = GenRule(i, 'S', 'H', false);
+			if (cascade) {
+				auto w = Words(rl[i]);
+				std::string base = w[4];
+				const std::string& fs = w[5];
+				std::vector<std::string> sfx;
+				if (fs == "-") sfx.push_back("");
+				else if (fs.compare(0, 2, "L:") == 0) { if (fs != "L:e") for (auto& v : Split(fs.substr(2), ',')) sfx.push_back(v.substr(1)); }
+				else if (fs.compare(0, 2, "M:") == 0) { if (fs != "M:e") for (auto& kv : Split(fs.substr(2), ',')) sfx.push_back(kv.substr(0, kv.find('='))); }
+				else if (fs.find("arr") != std::string::npos) sfx = { "a", "b", "c", "1", "2" };
+				else if (fs.find("dict") != std::string::npos) sfx = { "x", "y", "z" };
+				else sfx = { "a", "b", "1", "x", "y" };
+				for (auto& x : sfx) created.push_back(base + x);
+			}
+		}
+		for (int i = 0; i < nr; i++)
+			if (rk[i] != 0) rl[i] = GenRule(i, kinds[rk[i]][0], kinds[rk[i]][1], cascade && kinds[rk[i]][1] == 'S');
+		for (auto& l : rl) out.push_back(l);
 		out.push_back(both ? "L 1,16" : "L 1");
 		int nq = (int)r.below(5);
 		for (int i = 0; i < nq; i++) out.push_back(GenA());
